@@ -36,12 +36,14 @@ extern pthread_mutex_t snoopy_tsrm_threadRepo_mutex;
 extern void snoopy_configuration_preinit_enableAltConfigFileParsing(char *path);
 #include <dlfcn.h>
 static int (*real_lock)(pthread_mutex_t *), (*real_unlock)(pthread_mutex_t *);
+static ssize_t (*real_write)(int, const void *, size_t);
 static int resolving;
 __attribute__((constructor)) static void resolve(void)
 {
     if (real_lock || resolving) return;
     resolving = 1;
     real_lock = dlsym(RTLD_NEXT, "pthread_mutex_lock"); real_unlock = dlsym(RTLD_NEXT, "pthread_mutex_unlock");
+    real_write = dlsym(RTLD_NEXT, "write");
     resolving = 0;
 }
 static int __pthread_mutex_lock(pthread_mutex_t *m) { if (!real_lock) { resolve(); if (!real_lock) return 0; } return real_lock(m); }
@@ -90,6 +92,21 @@ int pthread_mutex_unlock(pthread_mutex_t *m)
     }
     return __pthread_mutex_unlock(m);
 }
+/* a write(2) issued by the library inside a call (file / tty outputs) is a scheduling point too: no lock is held,
+   but another thread may fork while this one sits between its write and its close */
+static __thread int in_call;
+ssize_t write(int fd, const void *buf, size_t n)
+{
+    if (!real_write) { resolve(); }
+    if (me && in_call && fd > 2 && !free_run) {
+        if (mode_measure) { snprintf(measured + strlen(measured), sizeof measured - strlen(measured), "%s\"io\"", measured[0] ? "," : ""); return real_write(fd, buf, n); }
+        park(ST_WANT);
+        ssize_t r = real_write(fd, buf, n);
+        park(ST_HOLD);
+        return r;
+    }
+    return real_write(fd, buf, n);
+}
 /* --wrap shims label the critical sections in measure mode */
 extern void __real_snoopy_tsrm_ctor(void); extern void __real_snoopy_tsrm_dtor(void); extern int __real_snoopy_tsrm_get_threadCount(void);
 void __wrap_snoopy_tsrm_ctor(void) { kind_hint = "ctor"; __real_snoopy_tsrm_ctor(); kind_hint = NULL; }
@@ -102,8 +119,11 @@ static int do_call(int t, int k)
     snprintf(a0, sizeof a0, "prog-T%d", t); snprintf(a1, sizeof a1, "call-%d", k);
     char *argv[] = { a0, a1, NULL }; char *envp[] = { "E=1", NULL };
     errno = 0;
+    in_call = 1;
     int r = (k % 2) ? execve(path, argv, envp) : execv(path, argv);
-    return r == -1 ? errno : -r - 1000;
+    int e = errno;
+    in_call = 0;
+    return r == -1 ? e : -r - 1000;
 }
 
 static void do_fork(int t)
